@@ -265,6 +265,17 @@ op_merge(const char *id, const struct tp_schema *s, const char *ttok, const char
 
     if (arg_tree(id, s, ttok, &T)) return;
     if (arg_tree(id, s, stok, &S)) { lyd_free_all(T); return; }
+    /* api bit 4 / 8: the target / the source is replaced by its duplicate first - same content and flags, but its system-ordered
+     * (leaf-)lists carry no sorting tree (as after lyd_dup_* or a parse with LYD_PARSE_ORDERED) */
+    if ((api & 4) && T) {
+        struct lyd_node *d = NULL;
+        if (!lyd_dup_siblings(T, NULL, LYD_DUP_RECURSIVE | LYD_DUP_WITH_FLAGS, &d)) { lyd_free_all(T); T = d; }
+    }
+    if ((api & 8) && S) {
+        struct lyd_node *d = NULL;
+        if (!lyd_dup_siblings(S, NULL, LYD_DUP_RECURSIVE | LYD_DUP_WITH_FLAGS, &d)) { lyd_free_all(S); S = d; }
+    }
+    api &= 3;
     r = do_merge(s, &T, S, o, api, &cs);
     if (r) {
         dbgmsg(s, "merge");
